@@ -238,7 +238,7 @@ def unescape_beh(line):
 # --------------------------------------------------------------------------------------
 # in these families every behaviour is about one property's scenario (e.g. what a failed start leaves behind), so that
 # property owns every divergence found there in addition to the owner of the differing observable
-FAMILY_EXTRA_OWNERS = {"restart": {"C04"}}
+FAMILY_EXTRA_OWNERS = {"restart": {"C04", "C14"}}
 MON_OWNER = {1: {"C05"}, 2: {"C05"}, 3: {"C06"}, 4: {"C06", "C01"}, 5: {"C05"}, 6: {"C14", "C04"}, 7: {"C14", "C05"},
              8: {"C14"}, 9: {"C06"}, 10: {"C01"}}
 EINVAL, EPIPE, ETIMEDOUT, EWOULDBLOCK = -22, -32, -110, -11
@@ -1381,7 +1381,7 @@ PROPS = {
     "C19": {"families": ["wrapper"], "title": "reproc++ is a faithful mapping of the C API",
             "level_text": "TLC enumerates the option records, wrapper methods and C return values of spec/Wrapper.tla (every field with several pairwise distinguishable values) and predicts what the C layer must receive and what the wrapper must return; each point is executed through the real reproc++ sources over a recording mock of the C API and compared.",
             "technique": "TLA+ mapping model (Wrapper.tla) enumerated by TLC; every point replayed through reproc++ over a mock C API (conformance)"},
-    "C14": {"families": ["life", "faults", "env", "free"], "title": "life cycle; misuse errors, never UB"},
+    "C14": {"families": ["life", "restart", "faults", "env", "free"], "title": "life cycle; misuse errors, never UB"},
     "C02": {"families": ["stream", "drainbig", "threads", "free"], "title": "stream fidelity"},
     # (thorough: the destroy scripts also run through the C++ destructor in C16's cxx family)
     "C15": {"families": ["destroy", "restart", "threads", "free"], "title": "destroy applies the stop policy"},
